@@ -677,13 +677,13 @@ Proof.
     { eapply sreach_trans; [exact R1|]. rewrite Es2. eapply sreach_step. apply SS_packet. }
     assert (Rd : packet_available (s_reader s2) = false).
     { rewrite Es2, handle_packet_reader. cbn [s1 set_reader s_reader]. exact Hr0. }
-    set (w2 := upd_envok (upd_sess w s2) (w_envok w && ack_type_ok s1 p)) in *.
+    set (w2 := upd_drained (upd_envok (upd_sess w s2) (w_envok w && ack_type_ok s1 p)) _) in *.
     assert (P2 : Pres w w2).
     { split; [auto|]. intros Gw.
       destruct (w_poison w) eqn:Epo.
       - (* poisoned: only WInv matters *)
-        split; [|intros Hp; cbn [w2 w_poison upd_envok upd_sess] in Hp; congruence].
-        cbn [w2 w_sess upd_envok upd_sess]. destruct R2 as [ls R2]. eapply (spath_inv WInv); [exact WInv_step|exact R2|exact (proj1 Gw)].
+        split; [|intros Hp; cbn [w2 w_poison upd_drained upd_envok upd_sess] in Hp; congruence].
+        cbn [w2 w_sess upd_drained upd_envok upd_sess]. destruct R2 as [ls R2]. eapply (spath_inv WInv); [exact WInv_step|exact R2|exact (proj1 Gw)].
       - eapply (proj2 (Pres_quiet w s2 R2 _ Rd _ w2 eq_refl (conj eq_refl (conj eq_refl eq_refl)))); [exact Gw].
         Unshelve.
         + (* npart does not grow *)
@@ -692,7 +692,7 @@ Proof.
           { destruct R1 as [ls R1]. exact (proj1 (spath_inv WInv WInv_step _ _ _ R1 (proj1 Gw))). }
           destruct (Hc I1) as [Hn _]. cbn [s1 set_reader s_ob] in Hn. exact Hn.
         + intros Hl. now apply Hz. }
-    assert (Na2 : NA w2) by (unfold NA; cbn [w2 w_sess upd_envok upd_sess]; exact Rd).
+    assert (Na2 : NA w2) by (unfold NA; cbn [w2 w_sess upd_drained upd_envok upd_sess]; exact Rd).
     assert (Nah : NA (w_hd w2)) by (unfold NA; reflexivity).
     destruct hr as [d|e].
     + destruct d; inversion H; subst; (split; [intros _; exact Na2|exact P2]).
